@@ -34,8 +34,20 @@ def gen_deflate(tier, rng):
     return scns
 
 def gen_inflate(tier, rng):
+    import defgen
     scns = []
     k = 0
+    # EVERY output size for streams made of (literal, literal, maximal-length match): the fast decode paths rely on slop
+    # constants; the output buffer ends directly before an inaccessible page
+    for rep in range(2 if tier == "quick" else 8):
+        st = defgen.maxlen_stream(rng, reps=5 if tier == "quick" else 9)
+        n = len(zlib.decompressobj(-15).decompress(st))
+        for cpu in inflfam.KERNEL_CPUS:
+            for ao in range(0, n + 2):
+                scns.append(igz.scenario(len(scns), "inflate_stateless", list(st), wrap=0, calls=[[len(st), ao, 0, 0]], mem=1,
+                                         meta={"family": "inflate-every-output-size", "cpu": cpu, "complete_supply": False}))
+            for ao in (list(range(1, 40)) + [255, 256, 257, 258, 259, 272, 273, 274, 275, 300]):
+                scns.append(igz.scenario(len(scns), "inflate", list(st), wrap=0, tail_ai=1 << 16, tail_ao=ao, cap=100000, mem=1, meta={"family": "inflate-output-chunks", "cpu": cpu}))
     for cls, n in [("text", 4000), ("records", 9000), ("random", 1000), ("zeros", 70000)]:
         d = bytes(igz.corpus(rng, cls, n))
         for mode, st in ((0, zlib.compress(d, 6)[2:-4]), (1, inflfam.wrap_stream(1, zlib.compress(d, 9)[2:-4], d)), (3, zlib.compress(d, 1))):
